@@ -52,6 +52,8 @@ Definition wopts_of (s : list N) : wopts :=
           (match g 4%nat with [] => LAuto | [45; 49] => LNone1 | x => LFixed (str_to_nat x) end)
           (g 5%nat) (g 6%nat) (str_to_nat (g 7%nat)) (str_to_nat (g 8%nat)) (g 9%nat) (str_eqb (g 10%nat) [84]).
 
+(* a raising write: harness/writemodel.py run_impl renders it "ERR" whatever the exception class
+   (IndexError of las.index with no curve, KeyError of a missing item, ...) *)
 Definition show_werr (e : werr) : list N := s2l "ERR".
 
 Definition index_initial_of (l : las) : option (list cell) :=
@@ -68,6 +70,13 @@ Definition index_initial_of (l : las) : option (list cell) :=
              EN                       set index_initial to None (a LASFile built from scratch)
              ES<j> IS tok IS2 tok ... replace the data of curve j by these tokens
              EV<sect> IS mnem IS text set section[mnem].value = text   (sect in V W C P)
+             EB IS curve IS curve ... with curve = mnem IS2 unit IS2 tok IS2 tok ...
+                                      a LASFile built from scratch: LASFile() (the default items,
+                                      index_initial None), then append_curve(mnem, array(tokens),
+                                      unit=unit) per curve; "EB" alone is LASFile() itself
+             ED<j>                    del las.curves[j], j < number of curves (the session
+                                      mnemonics of the other curves are not renumbered)
+           a "nan" token of ES / EB is a NaN sample (mk_num).
    output: every written text followed by RS RS, then the snapshot of the LASFile at the end,
            or an ERR marker at the point of failure. *)
 Definition OPS : N := 57348.
@@ -83,6 +92,36 @@ Definition edit_setcol (t : list (list N)) (j : nat) (toks : list (list N)) (m :
   let data := List.map (fun i => nth i (l_data l) []) (seq 0 ncur) in
   mkmlas (mklas (l_version l) (l_well l) (l_curves l) (l_params l) (l_other l) (l_custom l)
                 (set_nth j cells data) (l_engine_numpy l)) (m_index_initial m).
+
+Definition cells_of (t : list (list N)) (toks : list (list N)) : list cell :=
+  List.map (fun k => match tab_hex t k with Some _ => mk_num (tab_hex t) k | None => CStr k end) toks.
+
+Definition edit_append (t : list (list N)) (mn unit : list N) (toks : list (list N)) (m : mlas) : mlas :=
+  let l := m_las m in
+  let ncur := List.length (s_items (l_curves l)) in
+  let data := List.map (fun i => nth i (l_data l) []) (seq 0 ncur) in
+  let trc := s_transforms (l_curves l) in
+  mkmlas (mklas (l_version l) (l_well l)
+                (mksect (sect_append trc (s_items (l_curves l)) (new_item mn unit (VStr []) [])) trc)
+                (l_params l) (l_other l) (l_custom l) (data ++ [cells_of t toks]) (l_engine_numpy l))
+         (m_index_initial m).
+
+Definition drop_nth {A} (n : nat) (l : list A) : list A := firstn n l ++ skipn (S n) l.
+Definition edit_delcurve (j : nat) (m : mlas) : mlas :=
+  let l := m_las m in
+  let ncur := List.length (s_items (l_curves l)) in
+  let data := List.map (fun i => nth i (l_data l) []) (seq 0 ncur) in
+  mkmlas (mklas (l_version l) (l_well l) (mksect (drop_nth j (s_items (l_curves l))) (s_transforms (l_curves l)))
+                (l_params l) (l_other l) (l_custom l) (drop_nth j data) (l_engine_numpy l))
+         (m_index_initial m).
+
+Definition build_scratch (t : list (list N)) (curves : list (list N)) : mlas :=
+  fold_left (fun m c => match split_char IS2 c with
+                        | mn :: unit :: toks => edit_append t mn unit toks m
+                        | _ => m
+                        end)
+            (List.filter (fun c => match c with [] => false | _ => true end) curves)
+            (mkmlas empty_las None).
 
 Definition edit_setval (sect mn v : list N) (m : mlas) : mlas :=
   let l := m_las m in
@@ -140,6 +179,13 @@ Fixpoint run_ops (ops : list (list N)) (st : pstate_) (acc : list N) : list N :=
           match st, split_char IS payload with
           | PLas x m, [j; toks] => run_ops rest (PLas x (edit_setcol t (str_to_nat j) (split_char IS2 toks) m)) acc
           | _, _ => acc ++ s2l "ERR:badop"
+          end
+      | 69 :: 66 :: payload =>                            (* EB *)
+          run_ops rest (PLas [] (build_scratch t (split_char IS payload))) acc
+      | 69 :: 68 :: j =>                                  (* ED *)
+          match st with
+          | PLas x m => run_ops rest (PLas x (edit_delcurve (str_to_nat j) m)) acc
+          | _ => acc ++ s2l "ERR:nolas"
           end
       | 69 :: 86 :: payload =>                            (* EV *)
           match st, split_char IS payload with
